@@ -21,8 +21,13 @@ def main():
     with open(outfile, "w") as out:
         for case in cases:
             try:
-                solve.begin_case(case)
-                res = mod.run_case(case) or {}
+                if case.get("kind") == "shadow":
+                    from . import hooks
+
+                    res = hooks.run_shadow(mod.ID, case["part"])
+                else:
+                    solve.begin_case(case)
+                    res = mod.run_case(case) or {}
             except Exception:
                 res = {"harness_error": traceback.format_exc()}
             purity.poison()   # the case has been judged: its result arrays are overwritten (see vlib.purity)
